@@ -115,8 +115,41 @@ func normaliseSources(repoDir string, env []string, buildFlags []string) (map[st
 		rep.Unchanged = true
 		return nil, rep, nil
 	}
-	pkg, preOverlay := preNormalise(pkgs[0], rep)
-	in := &inliner{pkg: pkg, info: pkg.TypesInfo, fset: pkg.Fset, decls: map[*types.Func]*ast.FuncDecl{}, fileOf: map[*ast.FuncDecl]*ast.File{},
+	// rounds of (table / library-idiom rewrites, inlining): an inlined helper can leave a loop
+	// over its (constant) variadic argument behind, which the next round unrolls
+	orig := pkgs[0]
+	cur := orig
+	var overlay map[string][]byte
+	for round := 0; round < 3; round++ {
+		ov, inlined, err := normaliseRound(repoDir, orig, cur, overlay, base, rep, round)
+		if err != nil {
+			return nil, rep, err
+		}
+		if ov != nil {
+			overlay = ov
+		}
+		if !inlined {
+			break
+		}
+		np, err := recheck(orig, overlay)
+		if err != nil {
+			return nil, rep, fmt.Errorf("the normalised package does not type-check: %w", err)
+		}
+		cur = np
+	}
+	sort.Strings(rep.Inlined)
+	sort.Strings(rep.Removed)
+	sort.Strings(rep.Kept)
+	rep.Unchanged = overlay == nil
+	return overlay, rep, nil
+}
+
+// normaliseRound: one round on the package `cur` (the original, or the re-checked result of
+// the previous round, whose changed files are in `overlay`). It returns the accumulated
+// overlay (nil when this round changed nothing) and whether the inliner changed something.
+func normaliseRound(repoDir string, orig, cur *packages.Package, overlay map[string][]byte, base map[string]bool, rep *inlineReport, round int) (map[string][]byte, bool, error) {
+	pkg, preOverlay := preNormalise(orig, cur, overlay, rep, round)
+	in := &inliner{pkg: pkg, info: pkg.TypesInfo, fset: pkg.Fset, n: round * 100000, decls: map[*types.Func]*ast.FuncDecl{}, fileOf: map[*ast.FuncDecl]*ast.File{},
 		cand: map[*types.Func]bool{}, why: map[*types.Func]string{}, rep: rep, changed: map[*ast.File]bool{}, inlinedN: map[*types.Func]int{}, keptN: map[*types.Func]int{}}
 	for _, f := range pkg.Syntax {
 		for _, d := range f.Decls {
@@ -188,8 +221,7 @@ func normaliseSources(repoDir string, env []string, buildFlags []string) (map[st
 	}
 	sort.Strings(rep.NewFuncs)
 	if len(in.cand) == 0 {
-		rep.Unchanged = preOverlay == nil
-		return preOverlay, rep, nil
+		return preOverlay, false, nil
 	}
 	// call graph among package functions; uses as values
 	calls := map[*types.Func]map[*types.Func]bool{}
@@ -342,25 +374,24 @@ func normaliseSources(repoDir string, env []string, buildFlags []string) (map[st
 			rep.Kept = append(rep.Kept, fmt.Sprintf("%s is not inlined anywhere: %s", declKey(fd), r))
 		}
 	}
-	sort.Strings(rep.Inlined)
-	sort.Strings(rep.Removed)
-	sort.Strings(rep.Kept)
 	if len(in.changed) == 0 {
-		rep.Unchanged = preOverlay == nil
-		return preOverlay, rep, nil
+		return preOverlay, false, nil
 	}
-	overlay := map[string][]byte{}
+	out := map[string][]byte{}
+	for k, v := range overlay {
+		out[k] = v
+	}
 	for k, v := range preOverlay {
-		overlay[k] = v
+		out[k] = v
 	}
 	for f := range in.changed {
 		src, err := renderFile(in.fset, f, pkg)
 		if err != nil {
-			return nil, rep, err
+			return nil, false, err
 		}
-		overlay[in.fset.File(f.Pos()).Name()] = src
+		out[in.fset.File(f.Pos()).Name()] = src
 	}
-	return overlay, rep, nil
+	return out, true, nil
 }
 
 // pruneUnusedImports re-parses src and removes imports no identifier refers to (a removed
@@ -1282,7 +1313,6 @@ func deepCopy(v reflect.Value) reflect.Value {
 	}
 }
 
-
 // ---- renamed baseline functions ----
 
 // baselineShapes (rules/baseline_functions.json, "shapes") records for every baseline function
@@ -1393,7 +1423,6 @@ func funcWords(fd *ast.FuncDecl) map[string]bool {
 	})
 	return w
 }
-
 
 // tailDup: `t := h(x); S(t)` where S is one statement without further candidate calls becomes
 // the inlined body of h with `t := <result>; S(t)` at each of its return points, so that the
